@@ -763,7 +763,7 @@ def gen_cases(ctx, thorough):
         for o in sel_alphabet(s):
             cases.append((s, (o,)))
     n1 = len(cases)
-    sub = starts if thorough else [s for i, s in enumerate(starts) if i % 8 == 0]
+    sub = starts[::2] if thorough else [s for i, s in enumerate(starts) if i % 8 == 0]
     for s in sub:
         for o1, o2 in itertools.product(small, repeat=2):
             cases.append((s, (o1, o2)))
@@ -771,16 +771,17 @@ def gen_cases(ctx, thorough):
     # must follow the CURRENT selectors)
     # quick: every sheet with a declared but unused URI (there the in-use status can flip) + every 25th other
     flip = [s for s in starts if unused_declaration(s)]
-    for s in (starts if thorough else flip[::2] + [s for i, s in enumerate(starts) if i % 25 == 7 and s not in flip]):
+    for n, s in enumerate(starts if thorough else
+                          flip[::2] + [s for i, s in enumerate(starts) if i % 25 == 7 and s not in flip]):
         sel = sel_alphabet(s)
         for o1, o2 in itertools.product(sel, NS_CRITICAL):
             cases.append((s, (o1, o2)))
             cases.append((s, (o2, o1)))
-        if thorough:
+        if thorough and n % 3 == 0:
             for o1, o2 in itertools.product(sel[:25], repeat=2):
                 cases.append((s, (o1, o2)))
     if thorough:
-        for s in [s for i, s in enumerate(starts) if i % 9 == 0]:
+        for s in [s for i, s in enumerate(starts) if i % 14 == 0]:
             for t in itertools.product(small[:20], repeat=3):
                 cases.append((s, t))
     n_exh = len(cases)
